@@ -20,6 +20,7 @@ import (
 	"verifharness/emit"
 
 	"github.com/zitadel/oidc/v3/pkg/client/rp"
+	"github.com/zitadel/oidc/v3/pkg/op"
 )
 
 func lvTerm(x lv) string { return emit.Pair(x.Loc, emit.Nat(x.Val)) }
@@ -81,8 +82,8 @@ func genSnap(r drv.Rand, n int) snapCase {
 			opts = append(opts, genPopt(r))
 		}
 		v := 0
-		if r.Chance(1, 3) {
-			v = 1 + r.IntN(3)
+		if r.Chance(1, 2) {
+			v = 1 + r.IntN(5) // deprecated constructors, or the caller's shared issuer-function values
 		}
 		sc.o = newProviderCaps(i, stor, opts, v, r.IntN(8), r.Chance(1, 4))
 	case 3:
@@ -127,6 +128,10 @@ func genSnap(r drv.Rand, n int) snapCase {
 		sc.o = provReq(i, stor, r.IntN(10))
 	case 10:
 		sc.o = devGetAudience()
+		if r.Bool() { // a caller-owned key slice passed variadically
+			sc.o = findKey(drv.Pick(r, []string{"", "", "rsa-1", "ec-1", "nope"}), drv.Pick(r, []string{"sig", "sig", ""}),
+				drv.Pick(r, []string{"RS256", "RS256", "ES256", "PS256", "EdDSA"}), r.Chance(1, 3))
+		}
 	case 11, 12:
 		sc.setup = []opd{newRP(i, false, tn, append(withClient(), roptVerOpts))} // ES256 allowed: id tokens verify
 		sc.o = rpCall(i, c, r.IntN(10), tn)
@@ -236,7 +241,14 @@ func genGroup(r drv.Rand, g int, kind, tenant int) (group, string) {
 			for kind == 1 && r.Bool() {
 				opts = append(opts, genPopt(r))
 			}
-			ops = []opd{newProviderCaps(i, stor, opts, 0, caps, false)}
+			variant := 0
+			if kind == 1 { // built from the caller's SHARED issuer-function value / *Config / option values, some insecure
+				variant = drv.Pick(r, []int{0, 4, 4, 5})
+				if r.Chance(1, 3) {
+					opts = append(opts, poptd{"PInsecure", func(w *world) op.Option { return op.WithAllowInsecure() }})
+				}
+			}
+			ops = []opd{newProviderCaps(i, stor, opts, variant, caps, false)}
 		}
 		for j := r.IntN(4); j > 0; j-- { // served requests: discovery first of all
 			ops = append(ops, provReq(i, stor, drv.Pick(r, []int{0, 0, 0, 1, 2, 3, 4, 5, 8})))
